@@ -309,18 +309,20 @@ class Check:
             out_dir.mkdir(parents=True, exist_ok=True)
             h = hashlib.blake2b(v["signature"].encode(), digest_size=6).hexdigest()
             p = out_dir / f"{h}.json"
-            p.write_text(json.dumps({"property": self.prop, "signature": v["signature"], "what": v["what"],
-                                     "seed": self.seed, "tier": self.tier, "failing_input_found": v["found_input"],
-                                     "replay": v["replay"],
-                                     "replay_cmd": f"./check {self.prop} --replay {p.relative_to(ROOT)}"},
-                                    indent=1, default=str, ensure_ascii=False))
+            doc = {"property": self.prop, "signature": v["signature"], "what": v["what"],
+                   "seed": self.seed, "tier": self.tier, "failing_input_found": v["found_input"],
+                   "replay": v["replay"], "replay_cmd": f"./check {self.prop} --replay {p.relative_to(ROOT)}"}
+            try:
+                p.write_text(json.dumps(doc, indent=1, default=str, ensure_ascii=False))
+            except UnicodeEncodeError:      # a lone surrogate in the failing input: keep it, as a JSON escape
+                p.write_text(json.dumps(doc, indent=1, default=str, ensure_ascii=True))
             tail = "" if v["found_input"] else " no-failing-input-found"
             lines.append(f"VIOLATION property={self.prop} replay={p.relative_to(ROOT)}{tail}")
         self.write_evidence()
         for ln in lines:
             print(ln)
         for v in self.violations:
-            print(f"  -> {v['signature']}: {v['what']}")
+            print(f"  -> {v['signature']}: {v['what']}".encode("utf-8", "backslashreplace").decode("utf-8"))
         print(f"[{self.prop}] tier={self.tier} seed={self.seed} evaluations={self.stats['evaluations']} "
               f"distinct_nontrivial={len(self.distinct)} obligations={len(self.obligations)} "
               f"known_findings={len(self.known_hits)} violations={len(self.violations)} wall={time.time() - self.t0:.1f}s")
@@ -362,7 +364,10 @@ class Check:
         # record outside /verif
         evdir = ROOT / "evidence" if REPO == Path("/repo") else Path("/var/tmp/verif-evidence-other-tree")
         evdir.mkdir(exist_ok=True, parents=True)
-        (evdir / f"{self.prop}.json").write_text(json.dumps(ev, indent=1, default=str, ensure_ascii=False))
+        try:
+            (evdir / f"{self.prop}.json").write_text(json.dumps(ev, indent=1, default=str, ensure_ascii=False))
+        except UnicodeEncodeError:          # a sample holding a lone surrogate
+            (evdir / f"{self.prop}.json").write_text(json.dumps(ev, indent=1, default=str, ensure_ascii=True))
 
 
 def main(argv=None) -> int:
